@@ -105,10 +105,12 @@ pub fn braille_mathml(mathml: Element, nav_node_id: &str) -> Result<(String, usi
                 prefix_ch_index = std::cmp::min(prefix_ch_index, start_index);
             }
             let indicators = chars[prefix_ch_index..start_index].iter().collect::<String>();   // chars to be examined
-            let i_start = start_index - match braille_code {
+            let n_indicator_chars = match braille_code {
                 "Nemeth" => i_start_nemeth(&indicators, first_ch),
                 _ => i_start_ueb(&indicators),               // treat all the other like UEB because they probably have similar number and letter prefixes
             };
+            // there can't be more indicator chars than chars that were examined (two-cell indicators are counted after seeing their last cell)
+            let i_start = start_index - std::cmp::min(n_indicator_chars, start_index - prefix_ch_index);
             if i_start < start_index {
                 // remove old highlight as long as we don't wipe out the end highlight
                 if start_index < end_index {
